@@ -2,7 +2,8 @@
    Only statements, each closed by [exact] of a lemma proved under Proofs/, with
    Print Assumptions beneath.  Real-number instance of the model. *)
 From Coq Require Import List Reals.
-Require Import BT.Num BT.Base BT.Records BT.Engine BT.Ops BT.Proofs.SecInv BT.Proofs.TreeInv BT.Proofs.WFProofs.
+Require Import BT.Num BT.Base BT.Records BT.Engine BT.Ops BT.Algos BT.Proofs.SecInv BT.Proofs.TreeInv BT.Proofs.WFProofs
+        BT.Proofs.AlgoWF.
 Local Open Scope R_scope.
 
 (* Whenever StrategyBase.update (SecurityBase.update at the leaves) returns on a well-formed
@@ -38,3 +39,40 @@ Theorem C01_balance_sheet_at_every_reachable_state :
     root_update paper_step date tr = Ok tr' -> snd tr' = false -> BS (fst tr') /\ WF (fst tr').
 Proof. exact reachable_update_BS. Qed.
 Print Assumptions C01_balance_sheet_at_every_reachable_state.
+
+(* The same for whole backtests.  Every stock algo of the model (selection, weighing, Rebalance, RebalanceOverTime,
+   LimitDeltas, LimitWeights, ClosePositionsAfterDates, RollPositionsAfterDates, ReplayTransactions, HedgeRisks,
+   UpdateRisk, ... and every Or / Not / AlgoStack / run_always composition of them) preserves well-formedness, for
+   every target strategy, every environment and every behaviour of the paper copies. *)
+Theorem C01_every_algo_preserves_well_formedness :
+  forall (paper_step : option nat -> tree RNumI (astate RNumI) -> result (tree RNumI (astate RNumI)))
+         (e : env RNumI) (a : algo RNumI) (p : list nat) tr tr' a' b,
+    run_algo paper_step e p a tr = Ok (a', b, tr') -> WF (fst tr) -> WF (fst tr').
+Proof. exact run_algo_WF. Qed.
+Print Assumptions C01_every_algo_preserves_well_formedness.
+
+(* Strategy.run: the stack, then every child strategy's run, recursively *)
+Theorem C01_strategy_run_preserves_well_formedness :
+  forall (paper_step : option nat -> tree RNumI (astate RNumI) -> result (tree RNumI (astate RNumI)))
+         (e : env RNumI) (fuel : nat) (p : list nat) tr tr',
+    strat_run paper_step fuel e p tr = Ok tr' -> WF (fst tr) -> WF (fst tr').
+Proof. exact strat_run_WF. Qed.
+Print Assumptions C01_strategy_run_preserves_well_formedness.
+
+(* Backtest.run, any declaration tree, any data, any stacks: at the end of EVERY date (update; run; update — with the
+   paper copies of nested strategies stepped by the same loop) the tree is well-formed and, when fresh, balanced at
+   every node. *)
+Theorem C01_balance_sheet_at_the_end_of_every_backtest_date :
+  forall dates prices kw ad intpos comm capital (sp : nspec RNumI (astate RNumI)) tr,
+    backtest dates prices kw ad intpos comm capital sp = Ok tr ->
+    exists t2, forall pre i post, seq 1 (length (process_dates dates) - 1) = pre ++ i :: post ->
+      exists t0 ti, bt_loop (bt_env dates ad) pre t2 = Ok t0 /\ date_step (bt_env dates ad) i t0 = Ok ti /\
+                    WF (fst ti) /\ (snd ti = false -> BS (fst ti)).
+Proof. exact backtest_every_date. Qed.
+Print Assumptions C01_balance_sheet_at_the_end_of_every_backtest_date.
+
+Theorem C01_backtest_result_is_well_formed :
+  forall dates prices kw ad intpos comm capital (sp : nspec RNumI (astate RNumI)) tr,
+    backtest dates prices kw ad intpos comm capital sp = Ok tr -> WF (fst tr).
+Proof. exact backtest_WF. Qed.
+Print Assumptions C01_backtest_result_is_well_formed.
